@@ -271,7 +271,7 @@ Lemma update_volume_strong_refuted :
 Proof.
   set (t := mkTask 4 1 (Some 1) (mkTmpl 1 false 0) [] 3 None None).
   exists (mkOracles (fun _ _ => true) (fun _ _ _ => true) (fun _ => true) (fun _ => true)).
-  exists [mkQueue 2 1 1].
+  exists [mkQueue 2 1 1 false].
   exists (mkJob 7 [t] 1 [] [mkVol 1 0 (Some 1)] None 2 1 3 0 0 0).
   exists (mkJob 7 [t] 1 [] [mkVol 1 5 (Some 1)] None 2 1 3 0 0 0).
   split; [vm_compute; reflexivity|]. split; [vm_compute; reflexivity|]. split; [reflexivity|].
@@ -302,7 +302,7 @@ Lemma default_validity_needs_range_refuted :
                    validate_create O qs (mutate d j) = false.
 Proof.
   exists (mkOracles (fun _ _ => true) (fun _ _ _ => true) (fun _ => true) (fun _ => true)).
-  exists [mkQueue 2 1 1]. exists 1.
+  exists [mkQueue 2 1 1 false]. exists 1.
   exists (mkJob 7 [mkTask 4 4 None (mkTmpl 1 false 0) [] 0 None (Some (mkPart 2 2 3 0))]
                 0 [] [] None 0 0 0 0 0 0).
   vm_compute. split; reflexivity.
